@@ -990,3 +990,10 @@ func (ex *Exec) bigMul(x, y IntV) IntV {
 	}
 	return IntV{T: p, Lo: lo, Hi: hi}
 }
+
+func init() {
+	intercepts[apdP+"verifDigits"] = func(ex *Exec, a []Value, c *ssa.CallCommon) Value {
+		x := ex.bigAbs(ex.load(a[0].(PtrV)).(IntV))
+		return ex.newByteSlice(ex.bigDigits(x))
+	}
+}
